@@ -36,6 +36,12 @@ impl sylvia::cw_std::CustomMsg for Choice {}
 impl sylvia::cw_std::CustomMsg for MyMsg {}
 impl sylvia::cw_std::CustomQuery for MyQuery {}
 
+/// Message type taken by the free functions standing in for overridden entry points.
+#[cw_serde]
+pub struct OvrMsg {
+    pub tag: String,
+}
+
 /// Query response types (three distinct schemas).
 #[cw_serde]
 pub struct EchoA {
